@@ -429,24 +429,31 @@ func (w *World) uniMvcc(key []byte) *kvrpcpb.MvccInfo {
 		}
 		w.dbg = st
 	}
-	for try := 0; try < 20; try++ {
+	last := ""
+	for try := 0; try < 200; try++ {
+		if try > 3 {
+			time.Sleep(5 * time.Millisecond)
+		}
 		bo := tikv.NewBackofferWithVars(context.Background(), 5000, nil)
 		loc, err := w.dbg.GetRegionCache().LocateKey(bo, key)
 		if err != nil {
+			last = "locate: " + err.Error()
 			continue
 		}
 		req := tikvrpc.NewRequest(tikvrpc.CmdMvccGetByKey, &kvrpcpb.MvccGetByKeyRequest{Key: key})
 		resp, err := w.dbg.SendReq(bo, req, loc.Region, time.Second)
 		if err != nil || resp.Resp == nil {
+			last = fmt.Sprint("send: ", err)
 			continue
 		}
 		r := resp.Resp.(*kvrpcpb.MvccGetByKeyResponse)
 		if r.RegionError != nil {
+			last = "region error: " + r.RegionError.String()
 			continue
 		}
 		return r.Info
 	}
-	panic("verif: cannot read the MVCC projection from unistore")
+	panic("verif: cannot read the MVCC projection from unistore: " + last)
 }
 
 func lockKind(op kvrpcpb.Op) string {
